@@ -73,7 +73,11 @@ theorem readLinearExpr_ok (isObj : Bool) {s : PState} {c : CState}
     (hc : chkRev strict cx.h s.evs = some c) (ht : Top strict c) :
     Sat strict cx.h (readLinearExpr cx isObj) s (TopPost strict cx) := by
   unfold readLinearExpr
-  refine sat_rd_bind (reads_readUIntUB cx _) hc (fun idx s1 hc1 hidx => ?_)
+  refine sat_rd_bind (reads_readUIntUB cx _) hc (fun idx s1 hc1 hidx0 => ?_)
+  have hidx : idx < (if isObj = true then cx.h.num_objs else cx.h.num_algebraic_cons) := by
+    cases isObj
+    · simpa only [Bool.false_eq_true, ↓reduceIte, Site.itemsSeg_J] using hidx0
+    · simpa only [↓reduceIte, Site.itemsSeg_G] using hidx0
   refine sat_rd_bind (reads_readUIntLU cx _ _) hc1 (fun n s2 hc2 hn0 => ?_)
   have hn : 1 ≤ n ∧ n < cx.h.num_vars + 1 := by
     have a := Site.lbTerms_eq
@@ -105,7 +109,11 @@ theorem readBounds_ok (isCon : Bool) {s : PState} {c : CState}
   refine sat_rd_bind (reads_eol cx) hc (fun _ s1 hc1 _ => ?_)
   simp only []
   apply sat_forN (I := fun _ s' => TopPost strict cx () s') _ 0 s1 _ ⟨c, hc1, ht⟩
-  intro k i s2 _ _ hi ⟨c2, hc2, ht2⟩
+  intro k i s2 _ _ hi0 ⟨c2, hc2, ht2⟩
+  have hi : i < 0 + (if isCon = true then cx.h.num_algebraic_cons else cx.h.num_vars) := by
+    cases isCon
+    · simpa only [Bool.false_eq_true, ↓reduceIte, Site.itemsSeg_b] using hi0
+    · simpa only [↓reduceIte, Site.itemsSeg_r] using hi0
   have hto := topOK_of_top ht2 0
   have fin : ∀ (lb ub : F64) (s3 : PState), chkRev strict cx.h s3.evs = some c2 →
       Sat strict cx.h (do eol cx; emit (if isCon then .conBounds i lb ub else .varBounds i lb ub)) s3 (TopPost strict cx) := by
@@ -190,7 +198,7 @@ theorem readInitialValues_ok (isCon : Bool) {s : PState} {c : CState}
     (hc : chkRev strict cx.h s.evs = some c) (ht : Top strict c) :
     Sat strict cx.h (readInitialValues cx isCon) s (TopPost strict cx) := by
   unfold readInitialValues
-  cases isCon <;> simp only [Bool.false_eq_true, ↓reduceIte]
+  cases isCon <;> simp only [Bool.false_eq_true, ↓reduceIte, Site.itemsSeg_x, Site.itemsSeg_d]
   all_goals
     refine sat_rd_bind (reads_rdUInt cx) hc (fun n s1 hc1 _ => ?_)
     split
@@ -220,12 +228,13 @@ theorem readSuffix_ok {s : PState} {c : CState}
   refine sat_rd_bind (reads_eol cx) hc3 (fun _ s4 hc4 _ => ?_)
   have hto := topOK_of_top ht 0
   have hk := kind_le_three info
+  have hle := Site.itemsSuffix_le cx.h (info % 4) hk
   split
   · refine sat_em_bind (c' := { c with vals := 0, stack := counted (fun k => .suf k (cx.h.suffixItems (info % 4)) true) n [] }) hc4
       (by simp [step, stepCore, ht.2.1, hto, hk, counted]; omega) (fun s5 hc5 => ?_)
     have := sat_forN (strict := strict) (h := cx.h)
       (body := fun _ => do
-        let index ← readUIntUB cx (cx.h.suffixItems (info % 4))
+        let index ← readUIntUB cx (Site.itemsSuffix cx.h (info % 4))
         let v ← rdDouble cx
         emit (.setDbl index v)
         eol cx)
@@ -233,7 +242,8 @@ theorem readSuffix_ok {s : PState} {c : CState}
         some { c with vals := 0, stack := counted (fun k => .suf k (cx.h.suffixItems (info % 4)) true) k [] }) n 0 s5
     refine sat_mono (this ?_ hc5) (fun _ s' h' => ⟨_, h', top_reset (c := { c with stack := [] }) rfl ht.2.1⟩)
     intro k j s6 _ _ _ h6
-    refine sat_rd_bind (reads_readUIntUB cx _) h6 (fun idx s7 hc7 hidx => ?_)
+    refine sat_rd_bind (reads_readUIntUB cx _) h6 (fun idx s7 hc7 hidx0 => ?_)
+    have hidx : idx < cx.h.suffixItems (info % 4) := Nat.lt_of_lt_of_le hidx0 hle
     refine sat_rd_bind (reads_rdDouble cx) hc7 (fun v s8 hc8 _ => ?_)
     refine sat_em_bind (c' := { c with vals := 0, stack := counted (fun k => .suf k (cx.h.suffixItems (info % 4)) true) k [] }) hc8
       (by simp [step, stepCore, ht.2.1, counted, hidx]) (fun s9 hc9 => ?_)
@@ -242,7 +252,7 @@ theorem readSuffix_ok {s : PState} {c : CState}
       (by simp [step, stepCore, ht.2.1, hto, hk, counted]; omega) (fun s5 hc5 => ?_)
     have := sat_forN (strict := strict) (h := cx.h)
       (body := fun _ => do
-        let index ← readUIntUB cx (cx.h.suffixItems (info % 4))
+        let index ← readUIntUB cx (Site.itemsSuffix cx.h (info % 4))
         let v ← rdInt cx 32
         emit (.setInt index v)
         eol cx)
@@ -250,7 +260,8 @@ theorem readSuffix_ok {s : PState} {c : CState}
         some { c with vals := 0, stack := counted (fun k => .suf k (cx.h.suffixItems (info % 4)) false) k [] }) n 0 s5
     refine sat_mono (this ?_ hc5) (fun _ s' h' => ⟨_, h', top_reset (c := { c with stack := [] }) rfl ht.2.1⟩)
     intro k j s6 _ _ _ h6
-    refine sat_rd_bind (reads_readUIntUB cx _) h6 (fun idx s7 hc7 hidx => ?_)
+    refine sat_rd_bind (reads_readUIntUB cx _) h6 (fun idx s7 hc7 hidx0 => ?_)
+    have hidx : idx < cx.h.suffixItems (info % 4) := Nat.lt_of_lt_of_le hidx0 hle
     refine sat_rd_bind (reads_rdInt cx 32) hc7 (fun v s8 hc8 _ => ?_)
     refine sat_em_bind (c' := { c with vals := 0, stack := counted (fun k => .suf k (cx.h.suffixItems (info % 4)) false) k [] }) hc8
       (by simp [step, stepCore, ht.2.1, counted, hidx]) (fun s9 hc9 => ?_)
